@@ -3560,7 +3560,11 @@ class Hex(Adapter):
     """
     def _decode(self, obj, context, path):
         if isinstance(obj, int):
-            return HexDisplayedInteger.new(obj, "0%sX" % (2 * self.subcon._sizeof(context, path)))
+            try:
+                fmtstr = "0%sX" % (2 * self.subcon._sizeof(context, path))
+            except SizeofError:
+                fmtstr = "X"
+            return HexDisplayedInteger.new(obj, fmtstr)
         if isinstance(obj, bytes):
             return HexDisplayedBytes(obj)
         if isinstance(obj, dict):
